@@ -182,7 +182,7 @@ func init() {
 		pkgPath:   "github.com/yandex/pandora/core/engine",
 		module:    "InstLoop",
 		namespace: "Pandora.Gen.InstLoop",
-		imports:   []string{"Pandora.Model.C03Loop", "Pandora.Model.C03Await"},
+		imports:   []string{"Pandora.Model.C03Loop", "Pandora.Model.C03Await", "Pandora.Model.C03Start"},
 		extra:     instloopExtra,
 	}
 }
@@ -631,6 +631,8 @@ func instloopExtra(t *tr) string {
 	}
 	// ---- engine.go: the pool's bookkeeping (*runAwaitHandle).awaitRun / checkAllInstancesAreFinished
 	b.WriteString(instloopAwait(t, en))
+	// ---- engine.go: startInstances / runNewInstance / runAsync; plugin: the factory built by the registry (area_instloop_start.go)
+	b.WriteString(instloopStart(t, en))
 	return b.String()
 }
 
